@@ -246,7 +246,8 @@ def cases_line_delimiters_and_encodings():
         for spelling in ("none", "None", "NONE"):
             cases.append({"group": "line-delimiter", "format": fmt, "props": [["Line delimiter", spelling]], "expect": "either" if fmt == "fixed" else "refuse", "what": "line delimiter none"})
     encodings = ["ascii", "ASCII", "utf-8", "UTF-8", "utf_8", "latin-1", "iso-8859-1", "cp1252", "CP850", "utf-16", "mac-roman", "cp437", "u8",
-                 "utf-99", "klingon", "", "cp99999", "utf8x", "ebcdic", "ascii\x00", "\x00"]
+                 "iso_8859-1:1987", "ISO_8859-2:1987", "ISO_646.irv:1991", "latin 1", "utf 8", "ISO 8859-15", "windows 1252", "UTF_16_LE", "csISOLatin1", "l1", "646", "8859", "IBM037", "euc-jp", "hz", "big5hkscs",
+                 "utf-99", "klingon", "latin 99", "iso_8859-1:2087", "utf 9", "", "cp99999", "utf8x", "ebcdic", "ascii\x00", "\x00"]
     for fmt in FORMATS:
         for name in encodings:
             try:
